@@ -11,6 +11,7 @@ import Gpa.Model.Attribution
 import Gpa.Model.Truncate
 import Gpa.Model.Telemetry
 import Gpa.Model.Logs
+import Gpa.Model.Ebpf
 
 open Gpa
 
@@ -20,12 +21,30 @@ structure DState where
   svc : Health.ServiceState := []
   attr : Attribution.Server := { audit := [], conns := [] }
   roll : Logs.Rolling := { cur := none, archives := [] }
+  ebpf : Ebpf.State := { policy := [], skip := [], localMap := [], audit := [] }
   rollCfg : Logs.Settings := { maxSize := 1, maxCount := 1 }
 
 def showRoll (r : Logs.Rolling) : String :=
   let c := match r.cur with | some v => toString v | none => "-"
   let a := if r.archives.isEmpty then "-" else ",".intercalate (r.archives.map toString)
   s!"cur={c} a={a}"
+
+def natsOf (ts : List String) : Option (List Nat) := ts.mapM String.toNat?
+
+def lexLt : List Nat → List Nat → Bool
+  | [], [] => false
+  | [], _ => true
+  | _, [] => false
+  | a :: as, b :: bs => if a < b then true else if b < a then false else lexLt as bs
+
+def showEbpf (s : Ebpf.State) : String :=
+  let au := Text.sortBy (fun a b => lexLt a.1 b.1)
+    (s.audit.map fun kv => ([kv.1.1, kv.1.2], [kv.2.logonId, kv.2.processId, kv.2.isRoot, kv.2.destIp, kv.2.destPort]))
+  let lo := Text.sortBy (fun a b => lexLt a.1 b.1)
+    (s.localMap.map fun kv => ([kv.1 % 4294967296, kv.1 / 4294967296],
+      [kv.2.logonId, kv.2.processId, kv.2.isRoot, kv.2.destIp, kv.2.destPort, kv.2.protocol]))
+  let f := fun (kv : List Nat × List Nat) => " [" ++ ",".intercalate (kv.1.map toString) ++ "->" ++ ",".intercalate (kv.2.map toString) ++ "]"
+  "audit" ++ String.join (au.map f) ++ " | local" ++ String.join (lo.map f)
 
 def stepLine (st : DState) (line : String) : DState × String :=
   match line.trimAscii.toString.splitOn " " with
@@ -140,6 +159,59 @@ def stepLine (st : DState) (line : String) : DState × String :=
           let r := Logs.writeDump mx (ids.filterMap String.toNat?) nid
           (st, if r.isEmpty then "-" else ",".intercalate (r.map toString))
       | _, _ => (st, "bad-op")
+  | ["ebpf", "new"] => ({ st with ebpf := { policy := [], skip := [], localMap := [], audit := [] } }, "ok")
+  | "ebpf" :: "policy" :: ws =>
+      match natsOf ws with
+      | some l => if l.length = 12 then
+            ({ st with ebpf := { st.ebpf with policy := Ebpf.update st.ebpf.policy (l.take 6) (l.drop 6) } }, "ok 0")
+          else (st, "bad-op")
+      | none => (st, "bad-op")
+  | "ebpf" :: "unpolicy" :: ws =>
+      match natsOf ws with
+      | some l =>
+          let r := if (Ebpf.lookup st.ebpf.policy l).isSome then "ok 0" else "ok -2"
+          ({ st with ebpf := { st.ebpf with policy := Ebpf.delete st.ebpf.policy l } }, r)
+      | none => (st, "bad-op")
+  | ["ebpf", "skip", p] =>
+      match p.toNat? with
+      | some p => ({ st with ebpf := { st.ebpf with skip := p :: st.ebpf.skip } }, "ok 0")
+      | none => (st, "bad-op")
+  | "ebpf" :: "c4" :: ws =>
+      match natsOf ws with
+      | some [pt, ug, ip, port, proto] =>
+          let r := Ebpf.connect4 st.ebpf ⟨pt, ug⟩ ip port proto
+          ({ st with ebpf := r.1 }, s!"c4 1 {r.2.1} {r.2.2}")
+      | _ => (st, "bad-op")
+  | "ebpf" :: "tc" :: ws =>
+      match natsOf ws with
+      | some [pt, ug, fam, daddr, dport, lport] =>
+          ({ st with ebpf := Ebpf.tcpConnect st.ebpf ⟨pt, ug⟩ fam daddr dport lport }, "tc 0")
+      | _ => (st, "bad-op")
+  | ["ebpf", "rmaudit", a, b] =>
+      match a.toNat?, b.toNat? with
+      | some a, some b =>
+          let r := if (Ebpf.lookup st.ebpf.audit (a, b)).isSome then "ok 0" else "ok -2"
+          ({ st with ebpf := { st.ebpf with audit := Ebpf.delete st.ebpf.audit (a, b) } }, r)
+      | _, _ => (st, "bad-op")
+  | ["ebpf", "dump"] => (st, showEbpf st.ebpf)
+  | ["ebpf", "enc", "policy", ip, port] =>
+      match ip.toNat?, port.toNat? with
+      | some ip, some port => (st, " ".intercalate ((Ebpf.rustPolicyEntry ip port).map toString))
+      | _, _ => (st, "bad-op")
+  | ["ebpf", "enc", "auditkey", port] =>
+      match port.toNat? with
+      | some port => (st, s!"{(Ebpf.rustAuditKey port).1} {(Ebpf.rustAuditKey port).2}")
+      | none => (st, "bad-op")
+  | "ebpf" :: "dec" :: ws =>
+      match natsOf ws with
+      | some [a, b, c, d, e] =>
+          let r := Ebpf.rustDecode ⟨a, b, c, d, e⟩
+          (st, s!"{r.1} {r.2.1} {r.2.2.1} {".".intercalate (r.2.2.2.1.map toString)} {r.2.2.2.2}")
+      | _ => (st, "bad-op")
+  | ["ebpf", "ipsegs", n] =>
+      match n.toNat? with
+      | some n => (st, ".".intercalate ((Ebpf.ipToSegs n).map toString) ++ s!" {Ebpf.segsToIp (Ebpf.ipToSegs n)}")
+      | none => (st, "bad-op")
   | "authz" :: toks =>
       match Tok.run (do let ip ← Tok.str; let port ← Tok.nat; let e ← Pipeline.pBool
                         let rules ← Tok.opt Rbac.pItem; let u ← Rbac.pUri; let c ← Rbac.pClaims
